@@ -40,6 +40,7 @@ func checkC03(r *Report, p *Program) {
 	containerBuilders(r, p, "R03.15")
 	discoveryDefaults(r, p, "R03.16")
 	namespaceScopingTable(r, p, "R03.17")
+	staleParentAfterFinalizerSync(r, p, "R03.18")
 	// the children are listed from informers that stay alive while subscribed to (shared with C18)
 	r18_2(r, p)
 	// which children are claimed (and so shown to the hook) is decided by makeSelector: generated ⇒ controller-uid only (shared with C04)
